@@ -40,6 +40,14 @@ pub enum Inode {
 }
 
 #[derive(Clone, Debug)]
+pub struct DataOp {
+    /// Some((offset, data)) for a write, None for set_len / truncating open
+    pub write: Option<(u64, Vec<u8>)>,
+    /// file content right after the op
+    pub after: Vec<u8>,
+}
+
+#[derive(Clone, Debug)]
 pub struct Handle {
     pub ino: usize,
     pub cursor: u64,
@@ -69,14 +77,16 @@ pub struct Model {
     pub durable_entries: BTreeMap<usize, BTreeMap<String, usize>>,
     /// per file inode: content as of its last data sync (absent = empty)
     pub durable_content: BTreeMap<usize, Vec<u8>>,
-    /// per file inode: content snapshots after each data op since the last explicit sync
-    /// (a random background sync may have flushed any of them)
-    pub snapshots: BTreeMap<usize, Vec<Vec<u8>>>,
-    /// per file inode: pending (offset, data) writes since the last data sync, in order (torn writes)
-    pub pending_writes: BTreeMap<usize, Vec<(u64, Vec<u8>)>>,
+    /// per file inode: the data ops since the last explicit sync, in order, each with the content
+    /// right after it (a random background sync may have flushed any prefix of them; torn writes
+    /// may apply block prefixes of the writes after that point)
+    pub snapshots: BTreeMap<usize, Vec<DataOp>>,
     /// inode -> (parent inode, name) under which it was created by create/create_dir (not by rename),
     /// while that creation is not yet durable
     pub pending_creation: BTreeMap<usize, (usize, String)>,
+    /// renames whose entry changes are not durable yet: (src parent, src name, dst parent, dst name, inode).
+    /// A rename is one namespace operation: syncing either parent makes both of its entry changes durable.
+    pub pending_renames: Vec<(usize, String, usize, String, usize)>,
     /// number of pending (not durable) namespace/data operations — for the non-triviality rule
     pub pending_ops: u64,
 }
@@ -101,8 +111,8 @@ impl Model {
             durable_entries: BTreeMap::new(),
             durable_content: BTreeMap::new(),
             snapshots: BTreeMap::new(),
-            pending_writes: BTreeMap::new(),
             pending_creation: BTreeMap::new(),
+            pending_renames: Vec::new(),
             pending_ops: 0,
         }
     }
@@ -182,9 +192,37 @@ impl Model {
     }
 
     fn note_data_op(&mut self, ino: usize) {
+        self.note_data_op_w(ino, None)
+    }
+
+    fn note_data_op_w(&mut self, ino: usize, write: Option<(u64, Vec<u8>)>) {
         let d = self.file_data(ino).clone();
-        self.snapshots.entry(ino).or_default().push(d);
+        self.snapshots.entry(ino).or_default().push(DataOp { write, after: d });
         self.pending_ops += 1;
+    }
+
+    /// Contents a crash may leave in file `ino` (call before `crash`): its durable content with
+    /// all knobs off; with `random_sync`, additionally the content after any data op since the last
+    /// explicit sync; with `block_size`, block-prefix overlays of the writes pending after that point.
+    pub fn admissible_after_crash(&self, ino: usize, random_sync: bool, block_size: u64, observed: &[u8]) -> bool {
+        let durable = self.durable_content.get(&ino).cloned().unwrap_or_default();
+        let empty = Vec::new();
+        let ops = self.snapshots.get(&ino).unwrap_or(&empty);
+        let last_j = if random_sync { ops.len() } else { 0 };
+        for j in 0..=last_j {
+            let base: &Vec<u8> = if j == 0 { &durable } else { &ops[j - 1].after };
+            if block_size == 0 {
+                if base.as_slice() == observed {
+                    return true;
+                }
+            } else {
+                let writes: Vec<(u64, Vec<u8>)> = ops[j..].iter().filter_map(|o| o.write.clone()).collect();
+                if torn_admissible(base, &writes, block_size, observed) {
+                    return true;
+                }
+            }
+        }
+        false
     }
 
     // ---------------------------------------------------------------- namespace ops
@@ -404,6 +442,9 @@ impl Model {
         self.dir_entries_mut(tp).unwrap().insert(tname.to_string(), src);
         // a renamed object is no longer "created at" its original place
         self.pending_creation.remove(&src);
+        if fp != tp {
+            self.pending_renames.push((fp, fname.to_string(), tp, tname.to_string(), src));
+        }
         self.pending_ops += 1;
         Obs::Unit
     }
@@ -469,8 +510,7 @@ impl Model {
             d.resize(end, 0);
         }
         d[off as usize..end].copy_from_slice(data);
-        self.pending_writes.entry(hd.ino).or_default().push((off, data.to_vec()));
-        self.note_data_op(hd.ino);
+        self.note_data_op_w(hd.ino, Some((off, data.to_vec())));
         Obs::N(data.len() as u64)
     }
 
@@ -552,7 +592,6 @@ impl Model {
         let d = self.file_data(ino).clone();
         self.durable_content.insert(ino, d);
         self.snapshots.remove(&ino);
-        self.pending_writes.remove(&ino);
     }
 
     pub fn sync_dir(&mut self, path: &str) -> Obs {
@@ -572,6 +611,26 @@ impl Model {
                         }
                     }
                     self.durable_entries.insert(i, e);
+                    // renames touching this directory become durable as a whole
+                    let (touch, keep): (Vec<_>, Vec<_>) = std::mem::take(&mut self.pending_renames).into_iter().partition(|r| r.0 == i || r.2 == i);
+                    self.pending_renames = keep;
+                    for (sp, sname, dp, dname, ino) in touch {
+                        if sp != i {
+                            // source side: the old entry is durably gone (unless the name was re-used since)
+                            let live = self.dir_entries(sp).and_then(|m| m.get(&sname)).copied();
+                            if let Some(de) = self.durable_entries.get_mut(&sp) {
+                                if de.get(&sname) == Some(&ino) && live != Some(ino) {
+                                    de.remove(&sname);
+                                }
+                            }
+                        }
+                        if dp != i {
+                            // destination side: the new entry is durable if it is still there
+                            if self.dir_entries(dp).and_then(|m| m.get(&dname)) == Some(&ino) {
+                                self.durable_entries.entry(dp).or_default().insert(dname, ino);
+                            }
+                        }
+                    }
                     // the directory's own creation (if still pending, and it is still where it was
                     // created) becomes durable independently of its parent — as the crate documents
                     if let Some((p, name)) = self.pending_creation.get(&i).cloned() {
@@ -636,8 +695,8 @@ impl Model {
         self.durable_entries.retain(|d, _| reachable.contains(d));
         self.durable_content.retain(|c, _| reachable.contains(c));
         self.snapshots.clear();
-        self.pending_writes.clear();
         self.pending_creation.clear();
+        self.pending_renames.clear();
         self.pending_ops = 0;
         dangling
     }
